@@ -6,7 +6,8 @@ cd "$(dirname "$0")"
 export GOFLAGS=-mod=mod GOPROXY=off GOSUMDB=off GOTOOLCHAIN=local
 mkdir -p .build evidence replays
 (cd go/extract && GOCACHE="$PWD/../../.build/gocache" go build -o ../../.build/extract . && ../../.build/extract /repo "$PWD/../../lean/CvssVerif/Generated/Names.lean")
+(cd go/effects && GOCACHE="$PWD/../../.build/gocache" go build -o ../../.build/effects . && ../../.build/effects /repo "$PWD/../../lean/CvssVerif/Generated/Effects.lean")
 (cd lean && LEAN_NUM_THREADS=16 lake build CvssVerif cvssmodel)
 cp /repo/go.sum go/harness/go.sum
-(cd go/harness && GOCACHE="$PWD/../../.build/gocache" CGO_ENABLED=0 go build -tags verif -o ../../.build/harness .)
+(cd go/harness && { GOCACHE="$PWD/../../.build/gocache" CGO_ENABLED=0 go build -tags verif -o ../../.build/harness . || GOCACHE="$PWD/../../.build/gocache" CGO_ENABLED=0 go build -o ../../.build/harness . ; })
 echo "setup ok"
